@@ -125,6 +125,13 @@ def build(inst, rnd=None):
     for i in inst.get('pre_declare', []):
         tmp = SpurGear(f'tmp{i}', objs[i].n_teeth + 7, q('InertiaMoment', 1))
         add_gear_mating(tmp, objs[i], 1)
+    # a friction sweep on the same objects BEFORE assembly: a worm mating is first declared with another friction coefficient (on
+    # either side of the self-locking threshold), then with the final one - the final declaration is the one in force
+    for i, f0 in (inst.get('pre_worm') or {}).items():
+        try:
+            declare(int(i), f0)
+        except ValueError:
+            pass                            # (a first friction that is refused changes nothing)
     # the final relations, in the order the instance asks for (any order builds the same chain)
     for i in inst.get('decl_order') or range(1, len(objs)):
         declare(i)
